@@ -317,6 +317,9 @@ def run(tier):
 
 
 def replay(witness, kind=None):
+    if "directories" in witness:
+        n, out = _work_two([witness["patterns"]])
+        return {"violates": bool(out), "detail": [dict(f) for f in out[:2]]}
     base = env.fresh_dir("c09r")
     root = make_tree(base)
     qs = queries(root)
